@@ -1,5 +1,5 @@
 (* Pinned statements for C03: a changed statement or a new axiom fails the check. *)
-From SwimV Require Import Model.Uplinks Proofs.UplinksProofs Props.C03.
+From SwimV Require Import Model.Uplinks Proofs.UplinksProofs Model.ValuePipeline Proofs.ValuePipelineProofs Props.C03.
 Open Scope N_scope.
 Check (C03_value_synced_after_value) : (forall u l rest x b, u_sq u = [] -> u_wq u = (KValue, l) :: rest -> aget l (u_values u) = Some x -> uv_synced x = true -> uv_cur x = Some b -> option_map frames_of (snd (replace_and_pop u)) = Some [FEvent l b; FSynced l]).
 Print Assumptions C03_value_synced_after_value.
@@ -9,3 +9,9 @@ Check (C03_map_synced_drains_queue) : (forall l q, frames_of {| wt_lane := l; wt
 Print Assumptions C03_map_synced_drains_queue.
 Check (C03_sync_events_are_lane_events) : (forall kf ops, Forall (well_kinded kf) ops -> forall h t q, In (h, Some t) (urun uplinks0 [] ops) -> wt_action t = WMapSynced (Some q) -> forall e, In e (events q) -> pushed_map h (wt_lane t) e).
 Print Assumptions C03_sync_events_are_lane_events.
+Check (C03_value_sync_answer_is_current) : (forall l r rest, vl_syncq l = r :: rest -> snd (fst (vl_write l)) = [LSyncEvent r (vl_content l); LSynced r]).
+Print Assumptions C03_value_sync_answer_is_current.
+Check (C03_value_sync_before_event) : (forall l, vl_syncq l <> [] -> forall a, In a (snd (fst (vl_write l))) -> forall b, a <> LEvent b).
+Print Assumptions C03_value_sync_before_event.
+Check (C03_value_tail_converges) : (forall init ops1 ops2 r, let p1 := pexec (pipe0 init) ops1 in let p2 := pexec (pipe0 init) (ops1 ++ ops2) in Owes r p1 -> Forall (fun o => o <> PUnlink r) ops2 -> vl_dirty (p_lane p2) = false -> forall x, aget r (p_rems p2) = Some x -> v_home (r_up x) = true -> last_opt (events_of (r_sent x)) = Some (vl_content (p_lane p2))).
+Print Assumptions C03_value_tail_converges.
